@@ -119,8 +119,24 @@ def with_author_ids(body, rng, mode):
     return xml, marks
 
 
+def wrapped_bodies(rng, n):
+    """tokens and 2-D elements that are the ONLY child of one or two wrappers (mrow / mstyle / mpadded), wrappers and
+    child all carrying author ids: the clean-up lifts the child, and the child's id is the one to keep"""
+    out = []
+    inner = ["<mi id='tok-%d'>%s</mi>", "<mn id='tok-%d'>%s7</mn>", "<mfrac id='tok-%d'><mi>%s</mi><mn>2</mn></mfrac>", "<msqrt id='tok-%d'><mi>%s</mi></msqrt>",
+             "<msup id='tok-%d'><mi>%s</mi><mn>2</mn></msup>", "<mtext id='tok-%d'>%sq</mtext>"]
+    for i in range(n):
+        x = rng.choice(inner) % (i, rng.choice("abcuvw"))
+        for j in range(rng.randint(1, 2)):
+            w = rng.choice(["mrow", "mstyle", "mpadded", "mrow"])
+            x = "<%s id='wrap-%d-%d'>%s</%s>" % (w, i, j, x, w)
+        ctx = rng.choice(["%s", "<msqrt id='ctx-%d'>%%s</msqrt>" % i, "<mrow><mi>z</mi><mo>+</mo>%s</mrow>", "<mfrac><mn>1</mn>%s</mfrac>"])
+        out.append(ctx % x)
+    return out
+
+
 def api_oracle(res, rng):
-    bodies = list(X.FIXED) + [X.gen(rng, 3) for _ in range(20 if res.tier == "quick" else 300)]
+    bodies = list(X.FIXED) + [X.gen(rng, 3) for _ in range(20 if res.tier == "quick" else 300)] + wrapped_bodies(rng, 12 if res.tier == "quick" else 120)
     sessions, meta = [], []
     for b in bodies:
         for mode in ("some", "all", "dups"):
@@ -178,6 +194,18 @@ def api_oracle(res, rng):
             if not same_kind:
                 res.violation("author id %r moved from a <%s> to a <%s>" % (aid, t, got), dict(rep, returned=m))
                 nv += 1
+        # an author id on a token whose text is unique in the input: the element that carries that text in the result (if
+        # one still does: tokens can be merged) carries the id
+        for tag, attrs, text in re.findall(r"<(mi|mn|mtext)\b([^>]*)>([^<]+)</\1>", xml):
+            mid = re.search(r"\bid='([^']*)'", attrs)
+            if not mid or len(marks.get(mid.group(1), [mid.group(1)])) != 1 or xml.count(">%s<" % text) != 1:
+                continue
+            outs = re.findall(r"<(?:mi|mn|mtext|mo)\b([^>]*)>%s</" % re.escape(text), m)
+            if len(outs) == 1 and not re.search(r"\bid='%s'" % re.escape(mid.group(1)), outs[0]):
+                res.violation("the author id %r of the token %r is not on the element that carries it in the result (%s)"
+                              % (mid.group(1), text, re.search(r"\bid='([^']*)'", outs[0]).group(0) if re.search(r"\bid='([^']*)'", outs[0]) else "no id"), dict(rep, returned=m))
+                nv += 1
+                break
         idset = set(idl)
         handed = []
         for x in rs[4:]:
